@@ -37,7 +37,7 @@ SHEET_NAMES_EXTRA = {
 }
 # excluded by construction elsewhere (they are finding 11): digit-leading, punctuation
 NUM_CONST = [0.0, 1.0, 2.0, 3.0, 5.0, 7.0, -1.0, -4.0, 0.5, 2.5, -1.5, 10.0, 100.0, 0.25]
-TXT_CONST = ['ab', 'x', 'Hello', 'abc', 'ZZ', 'q']
+TXT_CONST = ['ab', 'x', 'Hello', 'abc', 'ZZ', 'q', '#N/A yet', '#REF! was here']  # the last two: text that merely starts like an error value
 NAME_POOL = ['TOTAL_IN', 'my_name', 'Rate.x', 'XNAME']  # must not look like a cell reference (RN1 is column RN row 1)
 ERR_CONST = ['#N/A', '#DIV/0!', '#VALUE!', '#REF!', '#NUM!', '#NAME?', '#NULL!']
 
@@ -96,12 +96,15 @@ def has_xbook(t, cur, names):
     return False
 
 
-def render(spec, t, cur, full):
+def render(spec, t, cur, full, linkidx=None):
     """Formula text of a tree hosted at cell `cur` = (b, s, r, c).  full=True:
-    every reference fully qualified ('[book]sheet'!A1)."""
+    every reference fully qualified ('[book]sheet'!A1).  linkidx {book: k}: references to
+    other books in the numbered-link form xlsx files contain ([k]Sheet!A1)."""
     names = spec.get('names', [])
 
     def q(b, s):
+        if linkidx is not None and b != cur[0]:
+            return '[%d]%s!' % (linkidx[b], sheet_name(spec, b, s))
         if full:
             return qual_full(spec, b, s)
         if (b, s) == (cur[0], cur[1]):
@@ -180,7 +183,24 @@ def rect_id_raw(spec, rect, ab=False):
 STALE = 777.0  # cached value found in spill cells of array formulas in real files
 
 
-def write_files(spec, dirpath, sheet_order=None):
+def link_plan(spec, b, variant):
+    """External links of book b for the numbered-link presentation: every other book, with link targets that are not
+    .xlsx books (an old .xls, a .xlsm) placed before / between / after them.  -> (targets in order, {book: index})"""
+    others = [ob for ob in range(len(spec['books'])) if ob != b]
+    if variant % 2:
+        others = others[::-1]
+    targets = [book_name(spec, ob) for ob in others]
+    decoys = {0: [], 1: [(0, 'legacy.xls')], 2: [(len(targets), 'macro.xlsm')], 3: [(0, 'legacy.xls'), (1, 'notes.docx')]}[(variant // 2) % 4]
+    for pos, name in sorted(decoys, reverse=True):
+        targets.insert(min(pos, len(targets)), name)
+    return targets, {ob: 1 + targets.index(book_name(spec, ob)) for ob in others}
+
+
+def _bare_ascii(name):
+    return re.match(r'^[A-Za-z_][A-Za-z0-9_.]*$', name) is not None and not re.match(r'^[A-Za-z]{1,3}[0-9]+$', name)
+
+
+def write_files(spec, dirpath, sheet_order=None, links=None, stale=True):
     import openpyxl
     from openpyxl.worksheet.formula import ArrayFormula
     from openpyxl.workbook.defined_name import DefinedName
@@ -201,13 +221,19 @@ def write_files(spec, dirpath, sheet_order=None):
             ws = wb[bk['sheets'][cs]]
             if 'f' in cell:
                 full = has_xbook(cell['f'], cell['at'], names)  # finding 31: mixed quoted forms are unsafe
-                f = '=' + render(spec, cell['f'], cell['at'], full)
+                lidx = None
+                if full and links is not None:
+                    xs = {(x[0], x[1]) for _, x in W.refs_of(cell['f'], names) if x[0] != b}
+                    # the quoted numbered form '[1]My Sheet'!A1 is a listed C04 finding: such cells keep the full form
+                    if all(_bare_ascii(sheet_name(spec, xb, xs_)) for xb, xs_ in xs):
+                        lidx, used_links = link_plan(spec, b, links)[1], True
+                f = '=' + render(spec, cell['f'], cell['at'], full and lidx is None, lidx)
                 if 'arr' in cell:
                     r2, c2 = cell['arr']
                     ref = '%s:%s' % (a1(r, c), a1(r2, c2))
                     for i in range(r, r2 + 1):
                         for j in range(c, c2 + 1):
-                            if (i, j) != (r, c):
+                            if (i, j) != (r, c) and stale:  # stale=False: only the anchor is stored (what openpyxl itself writes)
                                 ws.cell(row=i, column=j, value=STALE)
                     ws[a1(r, c)] = ArrayFormula(ref, f)
                 else:
@@ -227,6 +253,13 @@ def write_files(spec, dirpath, sheet_order=None):
             if 'alias' in nm:
                 txt = names[nm['alias']]['name']
             wb.defined_names[nm['name']] = DefinedName(nm['name'], attr_text=txt)
+        if links is not None and len(spec['books']) > 1:
+            from openpyxl.packaging.relationship import Relationship
+            from openpyxl.workbook.external_link.external import ExternalLink, ExternalBook
+            for target in link_plan(spec, b, links)[0]:
+                el = ExternalLink(externalBook=ExternalBook(id='rId1'))
+                el.file_link = Relationship(type='externalLinkPath', Target=target, TargetMode='External')
+                wb._external_links.append(el)
         p = os.path.join(dirpath, bk['name'])
         os.makedirs(os.path.dirname(p), exist_ok=True)
         wb.save(p)
